@@ -36,6 +36,8 @@ def run(db, rep, tier):
                                 "in the interval set, never folded into the cumulative ACK", 1)
     rep.rule("R7-tracker-reads-sack", "the ACK tracker a flow creates reads SACK blocks: its use_sack argument is not taken from the flow's own "
                                       "SYN (SACK-permitted announces willingness to RECEIVE SACKs; the blocks this tracker sees are sent by the peer)", 2)
+    rep.rule("R8-no-extra-filter", "SACK pieces are recorded under no other condition than: block well-formed and ending above the ACK; the flow "
+                                   "feeds its tracker from every TCP segment when tracking is on", 2)
     rep.rule("R6-sack-always", "SACK blocks are processed both on segments that advance the cumulative ACK and on those that do not", 1)
     r1(db, rep)
     r2(db, rep)
@@ -47,6 +49,7 @@ def run(db, rep, tier):
     r5(db, rep)
     r6(db, rep)
     r7(db, rep)
+    r8(db, rep)
     rep.explanation = ("Narrow claim: decides the query's decision table (values are only touched through seq_compare's sign and "
                        "set membership, so the table is complete), the ACK-advance/cleanup pairing, the comparison discipline "
                        "and that no SACK block is skipped, that a piece above the ACK is recorded rather than merged (R5, finite "
@@ -287,3 +290,58 @@ def r7(db, rep):
                 rep.analysis_broken("%s: use_sack = `%s` is neither constant nor a form the rule knows" % (key, t[:60]))
     if n < 2:
         rep.analysis_broken("only %d AckTracker constructions found in Flow" % n)
+
+
+def r8(db, rep):
+    # (a) guards of the piece loop
+    f = fn(db, AT + "::process_sack(")
+    g = cfg.FnCFG(f)
+    loops = [n for n in facts.fn_nodes(f) if n["k"] == "WhileStmt" and "has_next" in facts.expr_str(n["c"][0] if len(n["c"]) == 2 else n["c"][1])]
+    key = "process_sack:piece-loop-guards"
+    if not loops:
+        rep.analysis_broken("process_sack: piece loop not found")
+    else:
+        lc = loops[0]["c"][0] if len(loops[0]["c"]) == 2 else loops[0]["c"][1]
+        bad = None
+        for op, l, r in cond.guards_facts(g, g.pos(lc)):
+            t = facts.expr_str(l) + " " + op + " " + (facts.expr_str(r) if r is not None else "")
+            ok = False
+            if "sack.size()" in t or ".size()" in t and "i" in t.split("(")[0]:
+                ok = True                           # the block index is in range
+            if "seq_compare" in t and t.count("sack[") + t.count("sack [") >= 2 and "ack_number_" not in t:
+                ok = True                           # left edge below right edge
+            if "seq_compare" in t and ("last()" in t or "ack_number_" in t):
+                ok = True                           # block ends above the ACK
+            if "has_next" in t:
+                ok = True
+            if not ok:
+                bad = t
+        if bad:
+            rep.violation("R8-no-extra-filter", key, facts.loc(f, loops[0]),
+                          "SACK pieces are only recorded when additionally `%s`: blocks a conforming receiver sends are discarded (for instance "
+                          "a test against the unscaled window field)" % bad[:120])
+        else:
+            rep.ok("R8-no-extra-filter", key, facts.loc(f, loops[0]), "recorded whenever the block is well-formed and ends above the ACK")
+    # (b) Flow::process_packet feeds the tracker
+    fs = [x for x in db.fns_named("Tins::TCPIP::Flow::process_packet") if x.get("body")]
+    key = "Flow::process_packet:ack_tracker"
+    if not fs:
+        rep.analysis_broken("Flow::process_packet vanished")
+        return
+    f = fs[0]
+    g = cfg.FnCFG(f)
+    calls = [x for x in facts.fn_nodes(f) if x["k"] == "CXXMemberCallExpr" and x.get("cname") == "process_packet" and "ack_tracker_" in facts.expr_str(x)]
+    if len(calls) != 1:
+        rep.violation("R8-no-extra-filter", key, facts.loc(f), "expected one ack_tracker_.process_packet() call, found %d" % len(calls))
+        return
+    bad = None
+    for op, l, r in cond.guards_facts(g, g.pos(calls[0])):
+        t = facts.expr_str(l) + (" " + op + " " + facts.expr_str(r) if r is not None else "")
+        if "ack_tracking" in t or t.strip() in ("tcp",) or t.startswith("tcp "):
+            continue
+        bad = t
+    if bad:
+        rep.violation("R8-no-extra-filter", key, facts.loc(f, calls[0]),
+                      "the ACK tracker only sees segments when `%s`: with that condition false the tracker stays at the handshake ACK" % bad[:100])
+    else:
+        rep.ok("R8-no-extra-filter", key, facts.loc(f, calls[0]), "fed from every TCP segment when tracking is enabled")
